@@ -70,15 +70,41 @@ def specInst (params : List String) (nargs : Nat) (fns vars : List String) : Env
 
 /-! ### the mapped arguments object -/
 
-/-- MODEL indexOfParameterName (cmpl_evaluate.go:19): index i ↦ params[i] for i < #args -/
-def modelMap (params : List String) (nargs : Nat) : List (Option String) :=
-  (List.range nargs).map fun i => params[i]?
+/-- clear the entries that carry `name` -/
+def clearName (name : String) : List (Option String) → List (Option String)
+  | [] => []
+  | some n :: r => (if n = name then none else some n) :: clearName name r
+  | none :: r => none :: clearName name r
 
-/-- SPEC §10.6 step 11: index i is mapped to params[i] only if no LATER parameter has that name -/
+/-- MODEL the parameter loop of cmplCallNodeFunction (cmpl_evaluate.go:26, after fix c8023db), for the
+    positions that received an argument: `for earlier := range index { if indexOfParameterName[earlier]
+    == name { … = "" } }; indexOfParameterName[index] = name` — `acc` is the filled prefix -/
+def mapGo : List String → List (Option String) → List (Option String)
+  | [], acc => acc
+  | p :: ps, acc => mapGo ps (clearName p acc ++ [some p])
+
+/-- positions ≥ the number of parameters stay unmapped (`""`) -/
+def padNone (nargs : Nat) (m : List (Option String)) : List (Option String) :=
+  m ++ List.replicate (nargs - m.length) none
+
+def modelMap (params : List String) (nargs : Nat) : List (Option String) :=
+  padNone nargs (mapGo (params.take nargs) [])
+
+/-- SPEC §10.6 step 11, literally: indx runs from len−1 (len = number of ARGUMENTS) down to 0; a
+    position below the number of formal parameters is mapped unless its name is already in
+    mappedNames.  (`foldr` visits the last position first.) -/
+def specStep (name : String) (st : List (Option String) × List String) : List (Option String) × List String :=
+  if st.2.contains name then (none :: st.1, st.2) else (some name :: st.1, name :: st.2)
+
+def specMapped (q : List String) : List (Option String) × List String := q.foldr specStep ([], [])
+
 def specMap (params : List String) (nargs : Nat) : List (Option String) :=
-  (List.range nargs).map fun i =>
-    match params[i]? with
-    | some name => if (params.drop (i+1)).contains name then none else some name
-    | none => none
+  padNone nargs (specMapped (params.take nargs)).1
+
+/-- the same, read from the front: a position is mapped iff no LATER position (among those that
+    received an argument) has the same name -/
+def noLaterDup : List String → List (Option String)
+  | [] => []
+  | p :: ps => (if ps.contains p then none else some p) :: noLaterDup ps
 
 end OttoVerif.C01.Call
